@@ -163,7 +163,8 @@ def negShape (ds : List Nat) (sci : Int) (o : WOpts) : Shape :=
   let count := tr.1.length
   let exact := minExactDigits count o
   if tr.2 = true ∧ k = 1 then
-    (if o.trim then ⟨[1], none, none⟩ else ⟨[1], some (0 :: padZ count exact), none⟩)
+    (if o.trim then ⟨[1], none, none⟩
+     else ⟨[1], some (0 :: padZ (count + 1) (minExactDigits (count + 1) o)), none⟩)
   else ⟨[0], some (List.replicate (if tr.2 then k - 2 else k - 1) 0 ++ tr.1 ++ padZ count exact), none⟩
 
 /-- `write_float_positive_exponent` -/
